@@ -158,15 +158,23 @@ class SymbolTables:
                 # Create a new, top-level symbol table with the supplied name.
                 table = self.add(lname, node=node)
         else:
-            # We are already inside a scoping region so create a new table
-            # and setup its parent/child connections.
-            table = SymbolTable(
-                lname,
-                parent=self._current_scope,
-                checking_enabled=self._enable_checks,
-                node=node,
-            )
-            self._current_scope.add_child(table)
+            # We are already inside a scoping region. If it already has a
+            # nested table with this name (the parser can match the same
+            # region more than once when it back-tracks) then re-use it, as
+            # is done for top-level tables above. Otherwise create a new
+            # table and setup its parent/child connections.
+            for child in self._current_scope.children:
+                if child.name == lname:
+                    table = child
+                    break
+            else:
+                table = SymbolTable(
+                    lname,
+                    parent=self._current_scope,
+                    checking_enabled=self._enable_checks,
+                    node=node,
+                )
+                self._current_scope.add_child(table)
 
         # Finally, make this new table the current scope
         self._current_scope = table
